@@ -44,6 +44,13 @@ type DS struct {
 	counts map[string]int
 	// Trace, when set, receives every op (kind, key) at the moment it takes effect.
 	Trace func(kind, key string)
+	// IgnoreCtx makes the store ignore context cancellation, like the in-memory
+	// and LevelDB datastores do.
+	IgnoreCtx bool
+	// Pre, when set, is called at every operation after it was scheduled and
+	// before the context check / fault / effect (used to cancel contexts at the
+	// k-th seam call).
+	Pre func(op, key string)
 	// CompleteEnumerations counts queries whose iteration reached the end of the snapshot.
 	CompleteEnumerations int
 	// Quiet disables yielding (used when re-opening crash states outside a schedule).
@@ -86,7 +93,10 @@ func (d *DS) point(ctx context.Context, op string, key string) error {
 	}
 	d.counts[op]++
 	n := d.counts[op]
-	if ctx != nil {
+	if d.Pre != nil {
+		d.Pre(op, key)
+	}
+	if ctx != nil && !d.IgnoreCtx {
 		if err := ctx.Err(); err != nil {
 			return err
 		}
